@@ -88,22 +88,28 @@ def round (saltbits : UInt32) (l r kl kr : UInt32) : UInt32 × UInt32 :=
            ||| (psbox[2]!)[((mSbox[2]!)[(r48r >>> 12).toNat]!).toNat]! ||| (psbox[3]!)[((mSbox[3]!)[(r48r &&& 0xfff).toNat]!).toNat]!
   (r, f ^^^ l)
 
+/-- the sixteen round keys in the order the C code walks them (`kl++` / `kl--`) -/
+def keyList (c : Ctx) (decrypt : Bool) : List (UInt32 × UInt32) :=
+  let ks := (List.range 16).map fun i => (c.keysl[i]!, c.keysr[i]!)
+  if decrypt then ks.reverse else ks
+
+/-- one DES pass: sixteen rounds, then the undoing of the last swap (`r = l; l = f`) -/
+def pass (saltbits : UInt32) (ks : List (UInt32 × UInt32)) (p : UInt32 × UInt32) : UInt32 × UInt32 :=
+  let q := ks.foldl (fun (p : UInt32 × UInt32) k => round saltbits p.1 p.2 k.1 k.2) p
+  (q.2, q.1)
+
+/-- `f` applied `n` times -/
+def iter {α : Type} (f : α → α) : Nat → α → α
+  | 0, a => a
+  | n + 1, a => iter f n (f a)
+
 /-- `des_crypt_block (ctx, out, in, count, decrypt)` -/
-def cryptBlock (c : Ctx) (input : Bytes) (count : Nat) (decrypt : Bool) : Bytes := Id.run do
+def cryptBlock (c : Ctx) (input : Bytes) (count : Nat) (decrypt : Bool) : Bytes :=
   let count := if count = 0 then 1 else count
   let lin := be32 input 0; let rin := be32 input 4
-  let mut l := or8 ipMaskL (bytesOf lin rin)
-  let mut r := or8 ipMaskR (bytesOf lin rin)
-  for _ in [0:count] do
-    for i in [0:16] do
-      let k := if decrypt then 15 - i else i
-      let (l', r') := round c.saltbits l r c.keysl[k]! c.keysr[k]!
-      l := l'; r := r'
-    -- r = l; l = f  (undo the last swap)
-    let t := l; l := r; r := t
-  let lout := or8 fpMaskL (bytesOf l r)
-  let rout := or8 fpMaskR (bytesOf l r)
-  return toBe32 lout ++ toBe32 rout
+  let p0 := (or8 ipMaskL (bytesOf lin rin), or8 ipMaskR (bytesOf lin rin))
+  let p := iter (pass c.saltbits (keyList c decrypt)) count p0
+  toBe32 (or8 fpMaskL (bytesOf p.1 p.2)) ++ toBe32 (or8 fpMaskR (bytesOf p.1 p.2))
 
 /-- `des_set_key; des_set_salt; des_crypt_block` on the all-zero block (des_gen_hash's raw output) -/
 def desHash (key : Bytes) (salt count : Nat) : Bytes :=
